@@ -116,25 +116,25 @@ def gen_program(rng: random.Random, maxlen: int = 8) -> Dict[str, Any]:
         elif t == "float":
             kind = rng.choice(["Mul", "Mul", "MulDef", "Add", "Sq", "Probe", "Probe", "Sink", "CtxW",
                                "SweepMul", "CtxWBad", "Boom"] if rng.random() < 0.2 else
-                              ["Mul", "MulDef", "Add", "Sq", "Probe", "Sink", "CtxW", "SweepMul"])
+                              ["Mul", "MulDef", "Add", "Sq", "Probe", "Sink", "CtxW", "SweepMul", "CtxWP", "SweepCtxW"])
         else:
-            kind = rng.choice(["SliceMul", "SliceMulDef", "SliceProbe", "SliceProbe", "Sum"])
+            kind = rng.choice(["SliceMul", "SliceMulDef", "SliceProbe", "SliceProbe", "Sum", "SliceCtxW"])
         cfg = {}
         pname = {"Src": "value", "SrcDef": "value", "Mul": "factor", "MulDef": "factor",
-                 "SliceMul": "factor", "SliceMulDef": "factor", "Add": "addend"}.get(kind)
+                 "SliceMul": "factor", "SliceMulDef": "factor", "Add": "addend", "CtxWP": "factor", "SliceCtxW": "factor"}.get(kind)
         if pname and rng.random() < 0.45:
             cfg[pname] = rng.randint(-3, 6)
-        if rng.random() < 0.03 and kind not in ("SweepSrc", "SweepMul", "SweepSrcCtx"):
+        if rng.random() < 0.03 and kind not in ("SweepSrc", "SweepMul", "SweepSrcCtx", "SweepCtxW"):
             cfg["bogus"] = 1
         k1 = ""
         if kind in ("Probe", "SliceProbe"):
             k1 = rng.choice(FREE) if rng.random() > 0.03 else ""
         if kind == "SweepSrcCtx":
             k1 = rng.choice(FREE)
-        sw = [rng.randint(1, 4) for _ in range(rng.randint(1, 3))] if kind in ("SweepSrc", "SweepMul") else []
+        sw = [rng.randint(1, 4) for _ in range(rng.randint(1, 3))] if kind in ("SweepSrc", "SweepMul", "SweepCtxW") else []
         prog.append(node(kind, cfg, k1, "", sw))
         ty = {"Src": "float", "SrcDef": "float", "Src0": "float", "SweepSrc": "coll", "SweepSrcCtx": "coll",
-              "SweepMul": "coll", "Sum": "float", "SliceMul": "coll", "SliceMulDef": "coll"}.get(kind, ty if kind in ("Probe", "Sink", "SliceProbe") else "float" if kind in ("Mul", "MulDef", "Add", "Sq", "CtxW", "CtxWBad", "Boom") else ty)
+              "SweepMul": "coll", "SweepCtxW": "coll", "SliceCtxW": "coll", "Sum": "float", "SliceMul": "coll", "SliceMulDef": "coll"}.get(kind, ty if kind in ("Probe", "Sink", "SliceProbe") else "float" if kind in ("Mul", "MulDef", "Add", "Sq", "CtxW", "CtxWP", "CtxWBad", "Boom") else ty)
     return {"prog": prog, "ictx": ictx, "idata": idata}
 
 
